@@ -83,9 +83,9 @@ def metadata_problems(outs, got, world, dag):
 def eval_case(case, seed, tier):
     cnt = Counter()
     probs = []
-    # quick: unoptimized plans (every intermediate is written) on the deterministic half of the cases whose hash is even
+    # quick: unoptimized plans (every intermediate is written) on the deterministic third of the cases (hash % 3 == 0)
     from ..common import stable_hash
-    both = tier != "quick" or int(stable_hash({k: v for k, v in case.items() if not k.startswith("_")}), 16) % 2 == 0
+    both = tier != "quick" or int(stable_hash({k: v for k, v in case.items() if not k.startswith("_")}), 16) % 3 == 0
     for optimize in ((True, False) if both else (True,)):
         obs = run_case(case, seed=seed, optimize=optimize, monitor=True, keep_world=True)
         try:
